@@ -123,7 +123,7 @@ def find_impl(text, masked, header_re):
     """Locate `impl ...` whose header (text between 'impl' and '{', whitespace-normalised)
     matches header_re. Returns (start, body_open, body_close)."""
     hits = []
-    for m in re.finditer(r'(?m)^[ \t]*(?:unsafe )?impl\b', masked):
+    for m in re.finditer(r'(?m)^[ \t]*(?:unsafe )?(?:impl|(?:pub(?:\([a-z]+\))? )?trait)\b', masked):
         bo = find_block_open(masked, m.start())
         if bo < 0:
             continue
